@@ -10,12 +10,12 @@ def tok(o):
 def cop(o):
     n, a = o
     return {"send": "MoSend %d" % (a[0] if a else 0), "poll": "MoPoll %d" % (a[0] if a else 0), "drive": "MoDrive %d" % (a[0] if a else 0),
-            "count": "MoCount", "creates": "MoCreateS", "drops": "MoDropS %d" % (a[0] if a else 0), "create": "MoCreate", "drop": "MoDrop %d" % (a[0] if a else 0)}[n]
+            "count": "MoCount", "pollc": "MoPollMine", "creates": "MoCreateS", "drops": "MoDropS %d" % (a[0] if a else 0), "create": "MoCreate", "drop": "MoDrop %d" % (a[0] if a else 0)}[n]
 
-def mk_case(chan, N, M, k, progs, sched, meta=None):
-    line = "multi chan=%s N=%d M=%d k=%d ; " % (chan, N, M, k) + " ; ".join(" ".join(tok(o) for o in p) for p in progs) + " ; S " + " ".join(map(str, sched))
-    coq = "run_multi_arc_atomic %d %d %d [%s] [%s]%%nat" % (N, M, k, "; ".join("[" + "; ".join(cop(o) for o in p) + "]" for p in progs), "; ".join(map(str, sched)))
-    m = dict(chan=chan, N=N, M=M, k=k, progs=progs, sched=sched); m.update(meta or {})
+def mk_case(chan, N, M, k, progs, sched, meta=None, probe=False):
+    line = "multi chan=%s N=%d M=%d k=%d%s ; " % (chan, N, M, k, " probe=1" if probe else "") + " ; ".join(" ".join(tok(o) for o in p) for p in progs) + " ; S " + " ".join(map(str, sched))
+    coq = "run_multi_arc_atomic%s %d %d %d [%s] [%s]%%nat" % ("_probe" if probe else "", N, M, k, "; ".join("[" + "; ".join(cop(o) for o in p) + "]" for p in progs), "; ".join(map(str, sched)))
+    m = dict(chan=chan, N=N, M=M, k=k, progs=progs, sched=sched, probe=probe); m.update(meta or {})
     return Case(line, coq, m)
 
 def parse_case_line(line):
@@ -25,7 +25,7 @@ def parse_case_line(line):
     for sec in secs[1:]:
         if sec.startswith("S ") or sec == "S": sched = [int(x) for x in sec[1:].split()]
         else: progs.append([(t.split(":")[0], [int(x) for x in t.split(":")[1:]]) for t in sec.split()])
-    return mk_case(params["chan"], int(params["N"]), int(params["M"]), int(params["k"]), progs, sched)
+    return mk_case(params["chan"], int(params["N"]), int(params["M"]), int(params["k"]), progs, sched, probe=params.get("probe") == "1")
 
 def gen_fixed(rng, chan, Ms=(1, 2, 4)):
     """C03: a fixed set of listeners, 1-3 producers, fewer events than the buffer holds"""
@@ -66,6 +66,177 @@ def gen_history(rng, chan):
     sched = [0] * (len(prog) * 14 + 10)
     return mk_case(chan, N, M, k, [prog], sched, {"profile": "history"})
 
+def gen_churn(rng, chan):
+    """C17: 2-3 listeners exist throughout and are polled / driven by their own threads; 1-2 producers send; ONE churn thread creates
+    and drops listeners with every shared access of create_stream_id / report_stream_dropped scheduled against the fan-out loops.
+    The churn thread drops only listeners nobody else polls (a pre-existing one without a thread, or one it created itself)."""
+    N = 8; M = 4; k = rng.choice([2, 3, 3])
+    nstay = rng.randint(1, k) if k < M else rng.randint(1, k)
+    stayers = list(range(k))[:nstay] if rng.random() < 0.5 else sorted(rng.sample(range(k), nstay))
+    droppable = [i for i in range(k) if i not in stayers]
+    nprod = rng.randint(1, 2)
+    progs = []
+    total = rng.randint(1, 5)
+    for t in range(nprod): progs.append([])
+    for e in range(total): progs[rng.randrange(nprod)].append(("send", [0]))
+    progs = [p for p in progs if p] or [[("send", [0])]]
+    for t, p in enumerate(progs):
+        for j, (n, a) in enumerate(p): a[0] = 1000 * (t + 1) + j
+    nprod = len(progs)
+    for i in stayers:
+        progs.append([("drive", [i])] if rng.random() < 0.6 else [("poll", [i]) for _ in range(rng.randint(2, 7))])
+    vac = list(range(k, M)); mine = []; churn = []; live = k; last = None
+    for _ in range(rng.randint(1, 4)):
+        r = rng.random()
+        if r < 0.45 and vac:
+            i = vac.pop(0); mine.append(i); churn.append(("creates", [])); live += 1; last = i
+        elif r < 0.8 and (droppable or mine):
+            i = rng.choice(droppable + mine)
+            (droppable if i in droppable else mine).remove(i); vac.append(i); churn.append(("drops", [i])); live -= 1
+        elif mine and mine[-1] == last:
+            churn.append(("pollc", []))
+    if not churn:
+        if droppable: churn = [("drops", [droppable[0]])]
+        else: vac.pop(0); churn = [("creates", [])]
+    progs.append(churn)
+    churn_tids = [len(progs) - 1]
+    if vac and not any(n == "drops" for n, a in churn) and rng.random() < 0.5:
+        # a second thread creating a listener at the same time (only when nothing is dropped: ids must not run out)
+        progs.append([("creates", [])] + [("pollc", []) for _ in range(rng.randint(0, 2))]); churn_tids.append(len(progs) - 1)
+    nthreads = len(progs)
+    tot = sum(len(p) for p in progs)
+    sched = random_sched(rng, nthreads, rng.randint(10, tot * 14), burst=rng.choice([0.3, 0.6, 0.85]))
+    for _ in range(60): sched += list(range(nthreads))
+    return mk_case(chan, N, M, k, progs, sched, {"profile": "churn", "stayers": stayers, "churn_tids": churn_tids}, probe=True)
+
+def op_intervals(case, recs):
+    """per thread: [(op, first record index, last record index)] for the operations of its program, in order"""
+    progs = case.meta["progs"]; out = {t: [] for t in range(len(progs))}
+    nxt = {t: 0 for t in out}; cur = {}
+    ends = {"send": (10, 11), "poll": (12, 13, 14, 19), "pollc": (12, 13, 14, 19), "creates": (17, 19), "drops": (18, 19), "create": (17, 19), "drop": (18, 19), "count": (15,)}
+    for idx, r in enumerate(recs):
+        if r[0] not in ("acc", "ret"): continue
+        t = r[1]
+        if t not in out or nxt[t] >= len(progs[t]): continue
+        op = progs[t][nxt[t]]
+        if t not in cur: cur[t] = idx
+        if r[0] == "ret" and op[0] != "drive" and r[2] in ends.get(op[0], ()):
+            out[t].append((op, cur.pop(t), idx)); nxt[t] += 1
+    for t, a in cur.items():
+        if nxt[t] < len(progs[t]): out[t].append((progs[t][nxt[t]], a, len(recs)))
+    return out
+
+def oracle_churn(case, recs):
+    """C17 on the implementation history: a listener that exists throughout yields (plus still holds, at quiescence) every accepted
+    event exactly once, each producer's in order; deviations are filed under the two known classes only when the send of the event
+    overlaps a stepped removal (miss) or creation (repeat) - the used_streams array shifting under the fan-out loop."""
+    hits = []
+    MISS, REP, PIN = "C17.fanout_skips_listener_while_used_streams_is_rewritten", "C17.fanout_repeats_listener_while_used_streams_is_rewritten", "C17.orphan_queue_pins_pool_slots"
+    PINRC = "C17.refcount_preincrement_exceeds_publications"
+    progs = case.meta["progs"]; stayers = case.meta["stayers"]; cts = case.meta["churn_tids"]
+    sent = {}
+    for t, p in enumerate(progs):
+        for n, a in p:
+            if n == "send": sent[a[0]] = t
+    ok = [r[3] for r in recs if r[0] == "ret" and r[2] == 10]
+    iv = op_intervals(case, recs)
+    send_iv = {op[1][0]: (a, b) for t in iv for (op, a, b) in iv[t] if op[0] == "send"}
+    churn_iv = [(op[0], a, b) for ct in cts for (op, a, b) in iv.get(ct, []) if op[0] in ("creates", "drops")]
+    def overlaps(v):
+        # the send of v is in progress at some point of a stepped creation / removal (whose used_streams rewrite is in place)
+        if v not in send_iv: return False
+        a, b = send_iv[v]
+        return any(not (b2 < a or b < a2) for (k, a2, b2) in churn_iv)
+    per = {}
+    for r in recs:
+        if r[0] == "ret" and r[2] == 12: per.setdefault(r[4], []).append(r[3])
+        if r[0] == "panic": hits.append((None, "panic in thread %d" % r[1]))
+    fin = final_info(recs)
+    quiet = fin is not None and fin[0]
+    drained = fin[1] if fin else {}
+    for i in set(per) | set(drained):
+        allv = per.get(i, []) + (drained.get(i, []) if quiet else [])
+        for v in set(allv):
+            if v not in sent: hits.append((None, "listener %d got %d which was never sent" % (i, v)))
+            elif allv.count(v) > 1:
+                hits.append((REP if overlaps(v) else None, "listener %d got event %d %d times%s" % (i, v, allv.count(v), " (its send overlapped a listener creation / removal)" if overlaps(v) else "")))
+        for t in set(sent.values()):
+            mine = [v for v in allv if sent.get(v) == t]
+            ded = [v for j, v in enumerate(mine) if v not in mine[:j]]
+            if ded != sorted(ded): hits.append((None, "listener %d gets producer %d's events out of order: %s" % (i, t, mine)))
+    if quiet and len(ok) == len(sent):
+        for i in stayers:
+            allv = per.get(i, []) + drained.get(i, [])
+            for v in ok:
+                if v not in allv:
+                    hits.append((MISS if overlaps(v) else None, "listener %d exists throughout but never gets accepted event %d%s" % (i, v, " (its send overlapped a listener creation / removal)" if overlaps(v) else "")))
+    if fin is not None and len(fin) > 3 and fin[3] is not None and fin[3] != case.meta["N"]:
+        ogre = case.meta["chan"].startswith("ogre_arc")
+        orphan = any(k == "drops" for (k, a, b) in churn_iv)
+        raced = any(overlaps(v) for v in ok)
+        cls = (PIN if orphan else PINRC if raced else None) if ogre else None
+        hits.append((cls, "after everything live was consumed and released the channel accepts only %d of %d new events%s" % (fin[3], case.meta["N"],
+                     " (a listener was removed: what it left unconsumed pins pool slots)" if cls == PIN else " (a send overlapped a listener creation: reference count pre-incremented by a listener count the fan-out loop did not serve)" if cls == PINRC else "")))
+    return hits
+
+def nontrivial_churn(case, recs):
+    """a churn step lands inside a fan-out loop (between two used_streams reads of one send)"""
+    iv = op_intervals(case, recs); cts = case.meta["churn_tids"]
+    churn_iv = [(a, b) for ct in cts for (op, a, b) in iv.get(ct, []) if op[0] in ("creates", "drops")]
+    for t in iv:
+        for (op, a, b) in iv[t]:
+            if op[0] == "send" and any(a < idx < b and recs[idx][0] == "acc" and recs[idx][1] in cts for (a2, b2) in churn_iv for idx in range(max(a, a2), min(b, b2) + 1)): return True
+    return False
+
+def gen_setup(rng, chan):
+    """C03, listeners set up concurrently: 2..M threads each create a listener (every shared access scheduled) and then poll it, while a
+    producer sends; what is sent after the last creation returned must reach every listener"""
+    N = 8; M = rng.choice([2, 4]); c = rng.randint(2, min(M, 3))
+    progs = [[("send", [1000 + j]) for j in range(rng.randint(1, 4))]]
+    for _ in range(c): progs.append([("creates", [])] + [("pollc", []) for _ in range(rng.randint(1, 5))])
+    nthreads = len(progs)
+    creators = list(range(1, nthreads))
+    sched = []
+    pre = random_sched(rng, c, rng.randint(0, 16 * c), burst=rng.choice([0.3, 0.6, 0.85]))
+    sched += [1 + x for x in pre]
+    sched += random_sched(rng, nthreads, rng.randint(0, 60), burst=rng.choice([0.3, 0.6, 0.85]))
+    for _ in range(40): sched += list(range(nthreads))
+    return mk_case(chan, N, M, 0, progs, sched, {"profile": "setup", "creators": creators})
+
+def oracle_setup(case, recs):
+    hits = []
+    progs = case.meta["progs"]; creators = case.meta["creators"]
+    iv = op_intervals(case, recs)
+    created = {}; last_create_end = -1
+    for t in creators:
+        for (op, a, b) in iv.get(t, []):
+            if op[0] == "creates" and b < len(recs) and recs[b][0] == "ret" and recs[b][2] == 17:
+                created[t] = recs[b][3]; last_create_end = max(last_create_end, b)
+    if len(created) != len(creators): return hits          # a creation did not finish inside the schedule
+    if len(set(created.values())) != len(created): hits.append((None, "two listeners were given the same id: %s" % created))
+    owed = [op[1][0] for (op, a, b) in iv.get(0, []) if op[0] == "send" and a > last_create_end and b < len(recs) and recs[b][2] == 10]
+    per = {}
+    for r in recs:
+        if r[0] == "ret" and r[2] == 12: per.setdefault(r[4], []).append(r[3])
+        if r[0] == "panic": hits.append((None, "panic in thread %d" % r[1]))
+    fin = final_info(recs)
+    for i, vs in per.items():
+        if len(set(vs)) != len(vs): hits.append((None, "listener %d yielded an event twice: %s" % (i, vs)))
+        if vs != sorted(vs): hits.append((None, "listener %d yields the producer's events out of order: %s" % (i, vs)))
+    if fin is not None and fin[0]:
+        for t, i in created.items():
+            allv = per.get(i, []) + fin[1].get(i, [])
+            missing = [v for v in owed if v not in allv]
+            if missing: hits.append((None, "listener %d (created by thread %d) never gets %s, sent and accepted after every listener was set up" % (i, t, missing)))
+            if len(set(allv)) != len(allv): hits.append((None, "listener %d gets an event twice: %s" % (i, allv)))
+    return hits
+
+def nontrivial_setup(case, recs):
+    """two creations overlap"""
+    iv = op_intervals(case, recs)
+    c = [(a, b) for t in case.meta["creators"] for (op, a, b) in iv.get(t, []) if op[0] == "creates"]
+    return any(not (b1 < a2 or b2 < a1) for k, (a1, b1) in enumerate(c) for (a2, b2) in c[k+1:])
+
 def oracle_fixed(case, recs):
     """C03 on the implementation history: every listener yields every accepted event exactly once, each producer's events in its
     send order, nothing that was not sent (checked when the run went quiet with every listener driven)"""
@@ -91,7 +262,7 @@ def oracle_fixed(case, recs):
     # now is, per listener, every accepted event exactly once with each producer's events in order
     fin = final_info(recs)
     if fin is not None:
-        quiet, drained, bad = fin
+        quiet, drained, bad = fin[:3]
         for v in bad:
             if list(sent).count(v) == 1: hits.append((None, "event %d reached the listeners at different addresses (not one shared allocation)" % v))
         if quiet and len(ok) == len(sent):
@@ -113,7 +284,9 @@ def final_info(recs):
     while j < len(d) and d[j] != -1:
         i, n = d[j], d[j+1]; drained[i] = d[j+2:j+2+n]; j += 2 + n
     bad = d[j+2:j+2+d[j+1]] if j < len(d) else []
-    return quiet, drained, bad
+    j = j + 2 + (d[j+1] if j < len(d) else 0)
+    probe = d[j+1] if j + 1 < len(d) and d[j] == -2 else None
+    return quiet, drained, bad, probe
 
 def oracle_history(case, recs):
     """C10 on a sequential history: a stream yields exactly the events accepted during its lifetime, in order, at most once.
